@@ -44,8 +44,8 @@ RE_DATE = re.compile(r'^(?P<year>[0-9]{4,})-(?P<month>[0-9]{2})-(?P<day>[0-9]{2}
 RE_DATETIME = re.compile(
     r'^(?P<year>[0-9]{4,})-(?P<month>[0-9]{2})-(?P<day>[0-9]{2})T(?P<hour>[0-9]{2}):(?P<minutes>[0-9]{2})\Z'
 )
-RE_WILD_STRIP = re.compile(r'(?:(?:-\*-)(?:\*(?:-|$))*|-\*$)')
-RE_WILD_TAIL = re.compile(r'(?:-\*)+$')
+RE_WILD_STRIP = re.compile(r'(?:(?:-\*-)(?:\*(?:-|\Z))*|-\*\Z)')
+RE_WILD_TAIL = re.compile(r'(?:-\*)+\Z')
 
 MONTHS_30 = (4, 6, 9, 11)  # April, June, September, and November
 FEB = 2
